@@ -71,3 +71,12 @@ package lang
 //@   ensures imp(result1 == nil, result != nil && !result.$lastObs)
 //@   ensures imp(result1 == nil, exists(m, 0, len(j.jobs), j.jobs[m] == result && forall(k, m+1, len(j.jobs), j.jobs[k] == nil || j.jobs[k].$sawTerm)))
 //@   ensures imp(result1 != nil, result == nil && forall(k, 0, len(j.jobs), j.jobs[k] == nil || j.jobs[k].$sawTerm))
+
+// List: one iteration either skips a finished/empty slot or appends exactly one entry labelled
+// with the slot number i+1 (the job ID) and pointing at the job in that slot; earlier entries are
+// untouched. (Induction over the slots, on paper: the list is exactly the unfinished jobs, in
+// order, each under its own ID.)
+//@ func (*jobs).List [C27 C19]
+//@   requires j != nil
+//@   loop 1 step (len(s) == len(old(s)) && (j.jobs[i] == nil || j.jobs[i].$lastObs)) || (len(s) == len(old(s))+1 && s[len(s)-1] != nil && s[len(s)-1].JobId == $sprintf1("%%%d", any(i+1)) && s[len(s)-1].Process == j.jobs[i] && j.jobs[i] != nil && !j.jobs[i].$lastObs)
+//@   loop 1 step forall(k, 0, len(old(s)), s[k] == old(s)[k])
